@@ -155,6 +155,7 @@ def run(ctx):
     ctx.ob('9s0 stage-callers', 'anchor', 'db::DbInner', 'the callers of the pipeline stages were found (the four workers; stepping wrappers in the instrumentation build)', n9 >= 4, str(callers))
     shared.torn_record_not_handed_over(ctx, '2')        # a failed append never reaches the non-validating applier
     shared.unsynced_log_never_abandoned(ctx, '2')       # F82: a failed sync leaves the file in place as the appending file
+    shared.log_handles_are_linear(ctx, '2')
     shared.failed_cleanup_keeps_queue_order(ctx, '2')
     shared.no_log_handle_destroyed_in_cleanup(ctx, '2')   # a failed truncation does not let newer logs be truncated first
     # ------------------------------------------------------------ 3. informational: I/O calls outside try_io!
